@@ -120,9 +120,31 @@ def distreg_case(col, rng):
     col.add(None if ok else {"sig": "native::totals::distreg", "what": f"DistRegBuilder model: log_prob={prob}, lik+prior={lik + prior}, sum of dist nodes={dist_sum}, flags exactly-one={flags_ok}", "input": {"model": "distreg"}})
 
 
+def repeated_build_case(col, rng):
+    """one builder with user-supplied total nodes, built three times (copy=True, copy=True, copy=False): every model forwards the user nodes"""
+    mu = lsl.param(np.float32(rng.normal()), lsl.Dist(tfd.Normal, loc=0.0, scale=2.0), name="mu")
+    y = lsl.obs(jnp.asarray(rng.normal(size=4), jnp.float32), lsl.Dist(tfd.Normal, loc=mu, scale=1.0), name="y")
+    gb = lsl.GraphBuilder().add(y)
+    gb.log_lik_node = lsl.Calc(lambda m: jnp.asarray(m) * 0.0 + 11.0, mu, _name="user_lik")
+    gb.log_prior_node = lsl.Calc(lambda m: jnp.asarray(m) * 0.0 + 22.0, mu, _name="user_prior")
+    gb.log_prob_node = lsl.Calc(lambda m: jnp.asarray(m) * 0.0 + 44.0, mu, _name="user_prob")
+    bad = None
+    for i, copy in enumerate((True, True, False)):
+        model = gb.build_model(copy=copy)
+        got = (float(model.log_lik), float(model.log_prior), float(model.log_prob))
+        if got != (11.0, 22.0, 44.0):
+            bad = f"build #{i + 1} (copy={copy}) of the same builder: totals {got}, the user nodes say (11.0, 22.0, 44.0)"
+            break
+    col.add({"sig": "native::totals::user_nodes_lost_on_rebuild", "what": bad, "input": {"builds": ["copy=True", "copy=True", "copy=False"]}} if bad else None)
+
+
 def bounded(tier, seed):
     rng = np.random.default_rng(seed)
     col = util.Collector()
+    try:
+        repeated_build_case(col, rng)
+    except Exception as e:
+        col.add({"sig": f"native::totals::exception::{type(e).__name__}", "what": str(e)[:200], "input": {"scenario": "repeated build with user nodes"}})
     combos = [(po, at, un) for po in (True, False) for at in (False, True) for un in (False, True)]
     reps = 1 if tier == "quick" else 8
     for _ in range(reps):
